@@ -261,7 +261,11 @@ func step(b *ring.Buffer, f *fifo, o rop, src *bytesrc, ar *arena) (res stepResu
 			res.mismatch = fmt.Sprintf(format, a...)
 		}
 	}
-	_ = fail
+	defer func() {
+		if p := recover(); p != nil {
+			res.mismatch = fmt.Sprintf("%s with %d of %d bytes used panicked: %v", o, usedBefore, f.cap, p)
+		}
+	}()
 	var gotN, wantN int
 	var gotErr, wantErr error
 	switch o.Kind {
@@ -380,7 +384,16 @@ func step(b *ring.Buffer, f *fifo, o rop, src *bytesrc, ar *arena) (res stepResu
 }
 
 // drainCheck empties a COPY of the buffer through Read and compares with the model.
-func drainCheck(b *ring.Buffer, f *fifo, ar *arena) string {
+func drainCheck(b *ring.Buffer, f *fifo, ar *arena) (out string) {
+	defer func() {
+		if p := recover(); p != nil {
+			out = fmt.Sprintf("draining a copy of the buffer panicked: %v", p)
+		}
+	}()
+	return drainCheck1(b, f, ar)
+}
+
+func drainCheck1(b *ring.Buffer, f *fifo, ar *arena) string {
 	c := cloneInto(&ar.drain, &ar.store, b)
 	if cap(ar.out) < f.used()+2 {
 		ar.out = make([]byte, f.used()*2+16)
